@@ -61,6 +61,11 @@ class ExportConfigFortran(ExportConfig):
             name = self._rename(name)
             value, shape = self._parse_value(param, param.value)
             dtype = self._parse_dtype(param, value)
+            if isinstance(param, StringType) and shape is not None:
+                # items of a character array constructor need a common length
+                maxlen = max(len(str(v)) for v in np.array(param.value).flatten())
+                dtype = f"character(len={maxlen:d})"
+                value = f"{dtype} :: {value}"
             if shape is None:
                 lines.append(f"  {dtype}, parameter :: {name} = {value};")
             else:
